@@ -1,7 +1,7 @@
 #!/bin/bash
 # usage: seed_try.sh <patch.diff> <PROP> [more driver args]
 # applies the patch to /repo, runs the check, reverts the working tree
-P=$1; shift
+P=$(realpath "$1"); shift
 if git -C /repo status --short | grep -v '^??' | grep -q .; then echo "/repo not clean"; exit 9; fi
 git -C /repo apply "$P" || exit 9
 cd /verif && ./vcheck.py "$@" 2>&1 | grep -E "violation|inconclusive|VIOLATION|KNOWN|tier=|failed:" | cut -c1-260
